@@ -349,7 +349,11 @@ func bodyC34(c c34Case, x *vkit.Ctx) {
 		q1, _, _ := n.Serf.VerifQueued()
 		e.clockMoved = clk1 != clk0
 		e.queueGrew = len(newEntries(q0, q1))
-		e.dialed = len(nw.Dials())
+		for _, d := range nw.Dials() {
+			if d.To == "127.0.78.1:7946" { // the epilogue's own join target
+				e.dialed++
+			}
+		}
 		e.post = observe()
 		epilogue = append(epilogue, e)
 	}
